@@ -98,6 +98,11 @@ def tasks_for(tier):
             tasks.append((name + '-R2-d2', p, 2, 'lite', 'R2'))
         tasks.append(('same-named-projects', same_named_projects(), 1,
                       'lite', 'R2'))
+        # two steps over the full menus from the narrow start (a column
+        # move or rename followed by a rebuild of the same table)
+        from vf.checks import c03
+        tasks.append(('narrow-R2-d2-full', c03.narrow_start(), 2, 'full',
+                      'R2'))
     else:
         tasks.append(('same-named-projects', same_named_projects(), 2,
                       'lite', 'R2'))
